@@ -19,6 +19,7 @@ NOT_DECIDED = [
     "sizes of in-memory buffers are at most isize::MAX (used by the length-arithmetic rule)",
 ]
 CONFIG_SENSITIVE = True
+INLINE_HELPERS = True  # terms (and therefore operand fingerprints) are those of the inlined helper; the inventory itself is per body and static, so a helper's sites are listed once, in the helper
 
 HERE = os.path.dirname(os.path.abspath(__file__))
 PANICKING_LAST = {"unwrap", "expect", "unwrap_err", "expect_err", "index", "index_mut", "split_at", "split_at_mut", "split_off", "remove", "swap_remove", "drain",
@@ -81,13 +82,23 @@ def sites_of(body):
 
 # ------------------------------------------------------------ guard rules
 
+def conds_before(p, upto):
+    """conditions established on path p before the site: `upto` is the site's block, or the site's event itself (an event
+    spliced in from an inlined helper shares its block with the helper's other events, so the cut is by position)"""
+    out = []
+    for e in p.events:
+        if e is upto or (not isinstance(upto, mir.Event) and e.bb == upto and e.kind == "cond"):
+            break
+        if e.kind == "cond":
+            out.append(e)
+    return out
+
+
 def len_facts(p, upto_bb, coll):
     """(kind, n) facts about len(coll) established by conditions on the path before block upto_bb"""
     out = []
     coll = strip_refs(coll)
-    for c in p.conds():
-        if c.bb == upto_bb:
-            break
+    for c in conds_before(p, upto_bb):
         t = c.term
         if is_call(t, "::len") and strip_refs(call_args(t)[0]) == coll:
             out.append(c.fact)
@@ -161,7 +172,7 @@ def search_pos(t):
 
 def discharge(ctx, body, p, ev, kind):
     """name of the guard rule that makes this site safe on path p, or None"""
-    bb = ev.bb
+    bb = ev if "inlined_from" in ev.data else ev.bb
     if kind.startswith("assert:Overflow(Add)"):
         a, b = ev.mops
         if bounded_size(a) and bounded_size(b):
@@ -198,9 +209,7 @@ def discharge(ctx, body, p, ev, kind):
         last = nm.split("::")[-1]
         if last in ("unwrap", "expect") and "Option" in nm:
             x = strip_refs(ev.args[0])
-            for c in p.conds():
-                if c.bb == bb:
-                    break
+            for c in conds_before(p, bb):
                 t = c.term
                 if is_call(t, "Option::is_none") and strip_refs(call_args(t)[0]) == x and c.fact == ("eq", False):
                     return "G2-checked-some"
@@ -289,6 +298,31 @@ def discharge(ctx, body, p, ev, kind):
     return None
 
 
+def contextual_discharge(ctx, helper, site_bb, kind):
+    fx = ctx.fx
+    f = fx.fn(helper)
+    if f is None or f.get("vis") == "pub":
+        return None     # callers outside the crate cannot be enumerated
+    callers = [k for k, g in fx.bodies() if k != helper and any(b["term"]["k"] == "call" and (b["term"]["func"]["path"] == helper or mir.norm_path(b["term"]["func"]["path"]) == helper) for b in g["blocks"])]
+    if not callers:
+        return None
+    rules = set()
+    for ck in callers:
+        cb = ctx.body(ck)
+        ps = ctx.paths(ck)
+        occ = [(p, e) for p in (ps or []) for e in p.events
+               if e.data.get("inlined_from") == helper and e.data.get("inlined_from_bb") == site_bb
+               and ((e.kind == "assert" and kind.startswith("assert")) or (e.kind == "call" and not kind.startswith("assert")))]
+        if not occ:
+            return None     # called from here but not inlined here (or the site is unreachable from this caller): no verdict
+        for (p, e) in occ:
+            r = discharge(ctx, cb, p, e, kind)
+            if not r:
+                return None
+            rules.add(r)
+    return "%s; callers: %s" % (",".join(sorted(rules)), ", ".join(sorted(callers)))
+
+
 _REQ_CACHE = {}
 
 
@@ -300,6 +334,7 @@ def required_rules_failing(ctx, prop, rules):
         from check import Ctx
         mod = importlib.import_module("rules." + prop.lower())
         sub = Ctx(prop, ctx.tier, ctx.fx)
+        sub.inline_set = ctx.inline_set
         try:
             mod.run(sub)
             _REQ_CACHE[ck] = [r for r in sub.records if r.verdict == "violation"]
@@ -376,6 +411,13 @@ def run(ctx):
             if undis == 0:
                 ctx.ok("PANIC", key, inst, "discharged on %d path(s) by %s" % (len(evs), ",".join(sorted(rules))), body.span_of(bb))
                 continue
+            if key in ctx.inline_set and not kind.startswith("diverge"):
+                # a helper that did not exist when the rules were written: its site may be guarded by its callers.  It is discharged
+                # when it is discharged, with the caller's conditions, at every place the helper was inlined (all its call sites).
+                cr = contextual_discharge(ctx, key, bb, kind)
+                if cr:
+                    ctx.ok("PANIC", key, inst, "discharged in the context of every call site (%s)" % cr, body.span_of(bb))
+                    continue
             ex = [x for x in exemptions if x["item"] == key and x["fingerprint"] == fp]
             if ex and ex[0].get("requires"):
                 # the invariant rests on another property's structural rules: they must hold on this tree, or the exemption lapses
@@ -390,7 +432,7 @@ def run(ctx):
                 ctx.ok("PANIC", key, inst, "reasoned exemption: " + ex[0]["invariant"], body.span_of(bb), nontrivial=False)
                 continue
             ctx.violation("PANIC", key, inst, "panic-capable %s is not discharged on %d of %d path(s) through it and has no exemption: operands %s" % (kind, undis, len(evs), txt[:300]), body.span_of(bb))
-    ctx.floor("PANIC", "crate", "panic-capable sites inventoried", total, 100)
+    ctx.floor("PANIC", "crate", "panic-capable sites inventoried", total, 60)  # 120 counted; half of that, so that a refactor which removes sites is not an alarm (the detectors themselves are exercised by the positive controls)
     stale = [x for x in exemptions if (x["item"], x["fingerprint"]) not in used_ex and x.get("config", ctx.config) == ctx.config and not x.get("optional")]
     for x in stale:
         ctx.note("exemption no longer matches any site (lapsed): %s %s" % (x["item"], x["fingerprint"]))
@@ -400,6 +442,7 @@ def run(ctx):
     import rules.c07 as c07
     from check import Ctx
     sub = Ctx("C07", ctx.tier, fx)
+    sub.inline_set = ctx.inline_set
     c07.run(sub)
     bad = [r for r in sub.records if r.verdict == "violation" and r.rule.startswith("D4-")]
     for (key, inst, bb) in summary_internal:
